@@ -118,7 +118,10 @@ pub fn calc_metadata(
         if config.linear_ap_change_solver { linear_calc_ap_changes } else { calc_ap_changes }(
             program,
             program_info,
-            |idx, token_type| pre_gas_info.variable_values[&(idx, token_type)] as usize,
+            |idx, token_type| {
+                pre_gas_info.variable_values.get(&(idx, token_type)).copied().unwrap_or_default()
+                    as usize
+            },
         )?;
 
     let mut post_gas_info = if config.linear_gas_solver {
